@@ -43,15 +43,15 @@ RULE = (
 )
 ASSUMPTIONS = [
     "the standard query is py_gql.utilities.introspection_query(); includeDeprecated is patched textually",
-    "includeDeprecated=false is only run for models that declare a deprecation (the result is otherwise identical by construction of the query)",
+    "includeDeprecated false / omitted are only run for models (and, in __type lookups, for types) that declare a deprecation (the result is otherwise identical by construction of the query)",
     "code route is run for models with enum / input / scalar types (the only places where code-only facets are visible to introspection)",
     "order of fields / args / enum values / input fields is compared; interfaces and possible types are compared as sets of names",
     "disable_introspection is documented as 'prevent schema introspection ... keeping your API available': __schema/__type must be absent or null, errors are allowed, ordinary fields must be unchanged; __typename is not constrained",
     "models whose SDL the builder rejects (C11 findings) are exercised through the code route only",
 ]
 BOUNDS = {
-    "quick": {"features": 2, "generic_executor_upto": 1, "type_lookup_upto": 2, "disabled_upto": 2, "both_routes_upto": 2},
-    "thorough": {"features": 3, "generic_executor_upto": 2, "type_lookup_upto": 2, "disabled_upto": 2, "both_routes_upto": 2},
+    "quick": {"features": 2, "generic_executor_upto": 1, "type_lookup_upto": 2, "disabled_upto": 2, "both_routes_upto": 2, "omitted_upto": 1},
+    "thorough": {"features": 3, "generic_executor_upto": 2, "type_lookup_upto": 2, "disabled_upto": 2, "both_routes_upto": 2, "omitted_upto": 2},
 }
 TIME_CAP = {"quick": 150, "thorough": 1500}
 
@@ -76,7 +76,9 @@ def std_query(include_deprecated):
     from py_gql.utilities import introspection_query
 
     q = introspection_query()
-    assert q.count("includeDeprecated: true") == 2
+    assert q.count("(includeDeprecated: true)") == 2
+    if include_deprecated == "omitted":  # the argument's default (false) applies
+        return q.replace("(includeDeprecated: true)", "")
     return q if include_deprecated else q.replace("includeDeprecated: true", "includeDeprecated: false")
 
 
@@ -177,7 +179,7 @@ def check_standard(schema, model, include_deprecated, generic, st=None, blocking
     except (KeyError, TypeError, ValueError, AttributeError) as e:
         return [("malformed-result:%s" % type(e).__name__, "%s: %s" % (type(e).__name__, str(e)[:200]))], resp
     base, _ = M.sm_from_schema(schema, builtin=True)
-    exp = expected_view(base, include_deprecated)
+    exp = expected_view(base, include_deprecated is True)
     for t in conv["types"].values():
         if t.get("interfaces") is not None:
             t["interfaces"] = sorted(t["interfaces"])
@@ -187,6 +189,8 @@ def check_standard(schema, model, include_deprecated, generic, st=None, blocking
     seen = set()
     for what, path, e, g in M.sm_diff(exp, conv, ignore=("default", "python_name", "value")):
         cls = "content-differs:" + what
+        if what in ("field.names", "field.order") and path in exp["types"]:
+            cls += "[%s]" % exp["types"][path]["kind"]  # object or interface fields
         if cls in seen:
             continue
         seen.add(cls)
@@ -258,17 +262,20 @@ def check_standard(schema, model, include_deprecated, generic, st=None, blocking
 
 TYPE_QUERY = """
 query ($n: String!) { __type(name: $n) { kind name description
-  fields(includeDeprecated: true) { name } inputFields { name } enumValues(includeDeprecated: true) { name }
+  fields%(arg)s { name } inputFields { name } enumValues%(arg)s { name }
   interfaces { name } possibleTypes { name } } }
 """
+LOOKUP_ARGS = {"true": "(includeDeprecated: true)", "false": "(includeDeprecated: false)", "omitted": ""}
 
 
-def _type_lookup(schema, name, disabled=False):
+def _type_lookup(schema, name, disabled=False, mode="true"):
     from py_gql import process_graphql_query
     from py_gql.execution import BlockingExecutor
 
     try:
-        res = process_graphql_query(schema, TYPE_QUERY, variables={"n": name}, root=ROOT, executor_cls=BlockingExecutor, disable_introspection=disabled)
+        res = process_graphql_query(
+            schema, TYPE_QUERY % {"arg": LOOKUP_ARGS[mode]}, variables={"n": name}, root=ROOT, executor_cls=BlockingExecutor, disable_introspection=disabled
+        )
         return ("ok", json.loads(json.dumps(res.response())))
     except Exception as e:  # noqa
         return ("raises", type(e).__name__ + exc_where(e), str(e)[:200])
@@ -281,39 +288,12 @@ def check_type_lookup(schema, st=None):
     for name, t in sorted(base["types"].items()):
         if name.startswith("__") or name in CL.SPECIFIED:
             continue
-        if st is not None:
-            st.n("evaluations")
-        r = _type_lookup(schema, name)
-        if r[0] == "raises":
-            cls = "crash:%s/__type" % r[1]
-        elif r[1].get("errors"):
-            cls = "response-errors/__type:%s" % _norm_msg(r[1]["errors"][0].get("message"))
-        else:
-            j = (r[1].get("data") or {}).get("__type")
-            cls = None
-            if j is None:
-                cls = "content-differs:__type.null-for-existing-type"
-            else:
-                want_kind = {v: k for k, v in M._KIND.items()}[t["kind"]]
-                if j["kind"] != want_kind or j["name"] != name or j["description"] != t["description"]:
-                    cls = "content-differs:__type.kind-name-description"
-                members = {
-                    "fields": [f["name"] for f in t["fields"]] if t["kind"] in ("object", "interface") else None,
-                    "inputFields": [f["name"] for f in t["fields"]] if t["kind"] == "input" else None,
-                    "enumValues": [v["name"] for v in t["values"]] if t["kind"] == "enum" else None,
-                    "interfaces": sorted(t["interfaces"]) if t["kind"] == "object" else None,
-                    "possibleTypes": t.get("possible") if t["kind"] in ("interface", "union") else None,
-                }
-                for k, want in members.items():
-                    got = j.get(k)
-                    got = [x["name"] for x in got] if got is not None else None
-                    if k in ("interfaces", "possibleTypes") and got is not None:
-                        got = sorted(got)
-                    if got != want and cls is None:
-                        cls = "content-differs:__type.%s" % k
-        if cls and cls not in seen:
-            seen.add(cls)
-            out.append((cls, "__type(name: %r): %r" % (name, r[1:])))
+        has_dep = any(x["deprecated"] for x in (t.get("fields") or []) if "deprecated" in x) or any(v["deprecated"] for v in t.get("values") or [])
+        for mode in ("true", "false", "omitted") if has_dep else ("true",):
+            cls = _lookup_one(schema, name, t, mode, st)
+            if cls and cls not in seen:
+                seen.add(cls)
+                out.append((cls, "__type(name: %r) with includeDeprecated %s" % (name, mode)))
     if st is not None:
         st.n("evaluations")
     r = _type_lookup(schema, "NoSuchTypeZz")
@@ -324,6 +304,42 @@ def check_type_lookup(schema, st=None):
     elif (r[1].get("data") or {}).get("__type", "absent") is not None:
         out.append(("content-differs:__type.unknown-name-not-null", "%r" % r[1]))
     return out
+
+
+def _lookup_one(schema, name, t, mode, st=None):
+    """one __type(name:) query -> class of the first difference or None"""
+    show = mode == "true"
+    if st is not None:
+        st.n("evaluations")
+    r = _type_lookup(schema, name, mode=mode)
+    if r[0] == "raises":
+        cls = "crash:%s/__type" % r[1]
+    elif r[1].get("errors"):
+        cls = "response-errors/__type:%s" % _norm_msg(r[1]["errors"][0].get("message"))
+    else:
+        j = (r[1].get("data") or {}).get("__type")
+        cls = None
+        if j is None:
+            cls = "content-differs:__type.null-for-existing-type"
+        else:
+            want_kind = {v: k for k, v in M._KIND.items()}[t["kind"]]
+            if j["kind"] != want_kind or j["name"] != name or j["description"] != t["description"]:
+                cls = "content-differs:__type.kind-name-description"
+            members = {
+                "fields": [f["name"] for f in t["fields"] if show or not f["deprecated"]] if t["kind"] in ("object", "interface") else None,
+                "inputFields": [f["name"] for f in t["fields"]] if t["kind"] == "input" else None,
+                "enumValues": [v["name"] for v in t["values"] if show or not v["deprecated"]] if t["kind"] == "enum" else None,
+                "interfaces": sorted(t["interfaces"]) if t["kind"] == "object" else None,
+                "possibleTypes": t.get("possible") if t["kind"] in ("interface", "union") else None,
+            }
+            for k, want in members.items():
+                got = j.get(k)
+                got = [x["name"] for x in got] if got is not None else None
+                if k in ("interfaces", "possibleTypes") and got is not None:
+                    got = sorted(got)
+                if got != want and cls is None:
+                    cls = "content-differs:__type.%s[%s]/includeDeprecated=%s" % (k, t["kind"], mode)
+    return cls
 
 
 def _mentions_schema(value):
@@ -399,6 +415,8 @@ def evaluate(features, route, part, st=None):
         return check_standard(schema, model, True, False, st)[0]
     if part == "std-false":
         return check_standard(schema, model, False, False, st)[0]
+    if part == "std-omitted":
+        return check_standard(schema, model, "omitted", False, st)[0]
     if part == "generic":
         v, resp = check_standard(schema, model, True, False, None)
         if resp is None or resp.get("errors"):
@@ -414,8 +432,15 @@ def evaluate(features, route, part, st=None):
 def parts_for(features, route, bounds):
     sm = G.build_sm(features)
     parts = ["std-true"]
+    if len(features) > 1 and any(f in G.EXTRA for f in features):
+        # a string / description content class on a carrier: only what the standard query reports matters
+        if _has_deprecation(sm):
+            parts.append("std-false")
+        return parts
     if _has_deprecation(sm):
         parts.append("std-false")
+        if len(features) <= bounds["omitted_upto"]:
+            parts.append("std-omitted")
     if len(features) <= bounds["generic_executor_upto"]:
         parts.append("generic")
     if len(features) <= bounds["type_lookup_upto"]:
@@ -428,7 +453,7 @@ def parts_for(features, route, bounds):
 def cases(tier):
     b = BOUNDS[tier]
     for fs in G.feature_sets(b["features"]):
-        if len(fs) > b["both_routes_upto"]:
+        if len(fs) > b["both_routes_upto"] or (len(fs) > 1 and any(f in G.EXTRA for f in fs)):
             # largest sets: one route -- SDL, or the constructors when the builder rejects the SDL
             yield {"features": fs, "route": "sdl-or-code+", "tier": tier}
             continue
